@@ -237,6 +237,12 @@ def lr_orthogonal(ob, d, ttm):
     ob.frame()
 
 
+# the contract of rank_chop is USED by round_tt (modular verification): it is re-proved here, so that a change inside
+# rank_chop that breaks its contract is reported under C02 as well
+from . import c01 as _c01   # noqa: E402
+scenario('C02', 'uses.rank_chop_contract', 'torchtt._decomposition.rank_chop', quick=[dict()], replay='rank_chop')(_c01.rank_chop)
+
+
 @scenario('C02', 'canary.rank_strictly_lowered', 'torchtt._decomposition.round_tt', quick=[dict()], replay=None)
 def canary(ob):
     """claiming that rounding always lowers a rank strictly must be refuted"""
